@@ -2,7 +2,7 @@
    Server/Server.v and Client/Client.v (both validated against the real classes by their own
    correspondence checks), and the reassembly state of Pipe.v's loop is the `_binary_packet`
    transition of those models.  Proofs only. *)
-From VT Require Import Codec.Packet Codec.MsgPack E2E.Pipe.
+From VT Require Import Base.StateM Codec.Packet Codec.MsgPack Manager.Manager E2E.Pipe.
 From VT Require Server.Server Client.Client.
 Open Scope N_scope.
 
@@ -27,33 +27,11 @@ Lemma client_emit_payload (data : pv) :
   (match data with PTuple l => l | PNone => [] | x => [x] end) = client_pack data.
 Proof. reflexivity. Qed.
 
-(* ---- the `_binary_packet` transition: client model ---- *)
-(* a frame that does not complete a packet: same new state, nothing delivered *)
-Theorem client_model_pending c loads mloads payload (s : C.cli) st' :
-  client_rx_step loads mloads SerDefault (C.binpkt s) payload = Ok (Some st', []) ->
-  exists s', C.handle_eio_message c loads payload s = (s', [], Ok tt) /\ C.binpkt s' = Some st'.
-Proof.
-  unfold client_rx_step, rx_step_with, C.handle_eio_message. unfold bindM at 1. unfold getS at 1.
-  destruct (C.binpkt s) as [r|] eqn:Eb.
-  - destruct (add_attachment r payload) as [[r' [|]]|e]; cbn [bind]; intro H.
-    + destruct (if type_is (rp r') BINARY_EVENT then client_dispatch_event (rp r') else client_dispatch_ack (rp r'));
-        discriminate.
-    + inversion H; subst. eexists. split; reflexivity.
-    + discriminate.
-  - cbn [rx_decode]. unfold bindM at 1. unfold lift at 1.
-    destruct (decode loads payload) as [r|e]; cbn [bind]; [|discriminate].
-    change (C.type_is (rp r)) with (type_is (rp r)).
-    destruct (type_is (rp r) EVENT) eqn:T2.
-    { destruct (client_dispatch_event (rp r)); discriminate. }
-    destruct (type_is (rp r) ACK) eqn:T3.
-    { destruct (client_dispatch_ack (rp r)); discriminate. }
-    destruct (type_is (rp r) BINARY_EVENT || type_is (rp r) BINARY_ACK) eqn:T56; [|discriminate].
-    intro H. inversion H; subst.
-    assert (T0 : type_is (rp st') CONNECT = false /\ type_is (rp st') DISCONNECT = false).
-    { revert T56. unfold type_is. destruct (ptype (rp st')) as [|[|]|z| | | | | | |]; cbn; try discriminate;
-        destruct z as [|q|q]; try discriminate; repeat (destruct q as [q|q|]; try discriminate); split; reflexivity. }
-    destruct T0 as [T0 T1]. rewrite T0, T1. eexists. split; reflexivity.
-Qed.
+(* ---- monad bookkeeping ---- *)
+Lemma bind_getS {St E A} (k : St -> M St E A) s : bindM getS k s = k s s.
+Proof. unfold bindM, getS. destruct (k s s) as [[s2 e2] r]. reflexivity. Qed.
+Lemma bind_lift_ok {St E A B} (a : A) (k : A -> M St E B) s : bindM (lift (Ok a)) k s = k a s.
+Proof. unfold bindM, lift. destruct (k a s) as [[s2 e2] r]. reflexivity. Qed.
 
 Lemma type_is_event_excl p : type_is p EVENT = true \/ type_is p ACK = true \/
                              (type_is p BINARY_EVENT || type_is p BINARY_ACK) = true ->
@@ -62,6 +40,31 @@ Proof.
   unfold type_is. destruct (ptype p) as [|[|]|z| | | | | | |]; cbn; try (intros [H|[H|H]]; discriminate).
   destruct z as [|q|q]; try (intros [H|[H|H]]; discriminate).
   repeat (destruct q as [q|q|]; try (intros [H|[H|H]]; discriminate)); split; reflexivity.
+Qed.
+
+(* ---- the `_binary_packet` transition: client model ---- *)
+(* a frame that does not complete a packet: same new state, nothing delivered *)
+Theorem client_model_pending c loads mloads payload (s : C.cli) st' :
+  client_rx_step loads mloads SerDefault (C.binpkt s) payload = Ok (Some st', []) ->
+  exists s', C.handle_eio_message c loads payload s = (s', [], Ok tt) /\ C.binpkt s' = Some st'.
+Proof.
+  unfold client_rx_step, rx_step_with, C.handle_eio_message. rewrite bind_getS.
+  destruct (C.binpkt s) as [r|] eqn:Eb.
+  - destruct (add_attachment r payload) as [[r' [|]]|e]; cbn [bind]; intro H.
+    + destruct (if type_is (rp r') BINARY_EVENT then client_dispatch_event (rp r') else client_dispatch_ack (rp r'));
+        discriminate.
+    + inversion H; subst. eexists. split; reflexivity.
+    + discriminate.
+  - cbn [rx_decode]. destruct (decode loads payload) as [r|e]; cbn [bind]; [|discriminate].
+    rewrite bind_lift_ok. cbv zeta. change (C.type_is (rp r)) with (type_is (rp r)).
+    destruct (type_is (rp r) EVENT) eqn:T2.
+    { destruct (client_dispatch_event (rp r)); discriminate. }
+    destruct (type_is (rp r) ACK) eqn:T3.
+    { destruct (client_dispatch_ack (rp r)); discriminate. }
+    destruct (type_is (rp r) BINARY_EVENT || type_is (rp r) BINARY_ACK) eqn:T56; [|discriminate].
+    intro H. inversion H; subst.
+    destruct (type_is_event_excl (rp st') (or_intror (or_intror T56))) as [T0 T1].
+    rewrite T0, T1. eexists. split; reflexivity.
 Qed.
 
 (* a frame that completes a message: the model hands exactly the packet Pipe.v dispatches to
@@ -87,68 +90,60 @@ Theorem client_model_dispatch c loads mloads payload (s : C.cli) evs :
           else C.handle_ack c (pns (rp r')) (pid (rp r')) (pdata (rp r')))) s
   end.
 Proof.
-  unfold client_rx_step, rx_step_with, C.handle_eio_message. unfold bindM at 1. unfold getS at 1.
+  unfold client_rx_step, rx_step_with, C.handle_eio_message. rewrite !bind_getS.
   destruct (C.binpkt s) as [r|] eqn:Eb.
   - destruct (add_attachment r payload) as [[r' [|]]|e]; cbn [bind]; intro H; try discriminate.
     exists r'. split; [reflexivity|].
     destruct (if type_is (rp r') BINARY_EVENT then client_dispatch_event (rp r') else client_dispatch_ack (rp r'))
-      as [evs'|e] eqn:D; [|discriminate]. cbn [bind] in H. inversion H; subst. split; [reflexivity|].
-    change (C.type_is (rp r')) with (type_is (rp r')).
-    destruct ((C.set_binpkt None;;;
-               (if type_is (rp r') BINARY_EVENT
-                then C.handle_event c (pns (rp r')) (pid (rp r')) (pdata (rp r'))
-                else C.handle_ack c (pns (rp r')) (pid (rp r')) (pdata (rp r')))) s) as [[s2 e2] r2].
-    reflexivity.
-  - cbn [rx_decode]. unfold bindM at 1. unfold lift at 1.
-    destruct (decode loads payload) as [r|e]; cbn [bind]; [|discriminate].
-    change (C.type_is (rp r)) with (type_is (rp r)). intro H. exists r. split; [reflexivity|].
+      as [evs'|e] eqn:D; [|discriminate]. cbn [bind] in H. inversion H; subst. split; reflexivity.
+  - cbn [rx_decode]. destruct (decode loads payload) as [r|e]; cbn [bind]; [|discriminate].
+    rewrite !bind_lift_ok. cbv zeta. change (C.type_is (rp r)) with (type_is (rp r)).
+    intro H. exists r. split; [reflexivity|].
     destruct (type_is (rp r) EVENT) eqn:T2.
     + destruct (type_is_event_excl (rp r) (or_introl T2)) as [T0 T1]. rewrite T0, T1.
       left. split; [reflexivity|].
       destruct (client_dispatch_event (rp r)) as [evs'|e]; [|discriminate]. cbn [bind] in H. inversion H; subst.
-      split; [reflexivity|].
-      destruct (C.handle_event c (pns (rp r)) (pid (rp r)) (pdata (rp r)) s) as [[s2 e2] r2]. reflexivity.
+      split; reflexivity.
     + destruct (type_is (rp r) ACK) eqn:T3.
       * destruct (type_is_event_excl (rp r) (or_intror (or_introl T3))) as [T0 T1]. rewrite T0, T1.
         right. split; [reflexivity|]. split; [reflexivity|].
         destruct (client_dispatch_ack (rp r)) as [evs'|e]; [|discriminate]. cbn [bind] in H. inversion H; subst.
-        split; [reflexivity|].
-        destruct (C.handle_ack c (pns (rp r)) (pid (rp r)) (pdata (rp r)) s) as [[s2 e2] r2]. reflexivity.
+        split; reflexivity.
       * destruct (type_is (rp r) BINARY_EVENT || type_is (rp r) BINARY_ACK); discriminate.
 Qed.
 
 (* and what _handle_event does with it: data[0] / data[1:] to the handler, `pack r` in the ACK *)
-Theorem client_model_handle_event c p ns ev args id :
+Theorem client_model_handle_event c p ns ev args id s :
   client_dispatch_event p = Ok [EvCall ns ev args id] ->
-  C.handle_event c (pns p) (pid p) (pdata p) =
+  C.handle_event c (pns p) (pid p) (pdata p) s =
   (r <~ C.trigger_event c ev ns args ;;
    match id with
    | Some i => C.send_packet ACK (PList (client_pack r)) ns (Some i)
    | None => ret tt
-   end).
+   end) s.
 Proof.
   unfold client_dispatch_event, C.handle_event. intro H.
   change (C.split_event (pdata p)) with (client_split_event (pdata p)).
   destruct (client_split_event (pdata p)) as [[e a]|x]; [|discriminate]. cbn [bind fst snd] in H.
-  inversion H; subst. reflexivity.
+  inversion H; subst. cbv zeta. rewrite bind_lift_ok. reflexivity.
 Qed.
 
 (* ---- the same for the server model ---- *)
 Theorem server_model_pending c loads mloads eio payload (s : S.srv) st' :
   S.uses_binary c = true ->
-  server_rx_step loads mloads SerDefault (S.aget str_eqb (S.binpkt s) eio) payload = Ok (Some st', []) ->
+  server_rx_step loads mloads SerDefault (aget str_eqb (S.binpkt s) eio) payload = Ok (Some st', []) ->
   exists s', S.handle_eio_message c loads eio payload s = (s', [], Ok tt) /\
-             S.binpkt s' = S.aset str_eqb (S.binpkt s) eio st'.
+             S.binpkt s' = aset str_eqb (S.binpkt s) eio st'.
 Proof.
-  intro Hub. unfold server_rx_step, rx_step_with, S.handle_eio_message. unfold bindM at 1. unfold getS at 1.
-  destruct (S.aget str_eqb (S.binpkt s) eio) as [r|] eqn:Eb.
+  intro Hub. unfold server_rx_step, rx_step_with, S.handle_eio_message. rewrite bind_getS.
+  destruct (aget str_eqb (S.binpkt s) eio) as [r|] eqn:Eb.
   - destruct (add_attachment r payload) as [[r' [|]]|e]; cbn [bind]; intro H.
     + destruct (if type_is (rp r') BINARY_EVENT then server_dispatch_event (rp r') else server_dispatch_ack (rp r'));
         discriminate.
     + inversion H; subst. eexists. split; reflexivity.
     + discriminate.
-  - cbn [rx_decode]. rewrite Hub. unfold bindM at 1. unfold lift at 1.
-    destruct (decode loads payload) as [r|e]; cbn [bind]; [|discriminate].
+  - cbn [rx_decode]. unfold S.decode_any. rewrite Hub. destruct (decode loads payload) as [r|e]; cbn [bind]; [|discriminate].
+    rewrite bind_lift_ok. cbv zeta.
     destruct (type_is (rp r) EVENT) eqn:T2.
     { destruct (server_dispatch_event (rp r)); discriminate. }
     destruct (type_is (rp r) ACK) eqn:T3.
@@ -161,8 +156,8 @@ Qed.
 
 Theorem server_model_dispatch c loads mloads eio payload (s : S.srv) evs :
   S.uses_binary c = true ->
-  server_rx_step loads mloads SerDefault (S.aget str_eqb (S.binpkt s) eio) payload = Ok (None, evs) ->
-  match S.aget str_eqb (S.binpkt s) eio with
+  server_rx_step loads mloads SerDefault (aget str_eqb (S.binpkt s) eio) payload = Ok (None, evs) ->
+  match aget str_eqb (S.binpkt s) eio with
   | None =>
       exists r, decode loads payload = Ok r /\
         ((type_is (rp r) EVENT = true /\ server_dispatch_event (rp r) = Ok evs /\
@@ -175,37 +170,48 @@ Theorem server_model_dispatch c loads mloads eio payload (s : S.srv) evs :
       exists r', add_attachment r0 payload = Ok (r', true) /\
         (if type_is (rp r') BINARY_EVENT then server_dispatch_event (rp r') else server_dispatch_ack (rp r')) = Ok evs /\
         S.handle_eio_message c loads eio payload s =
-        (S.set_binpkt (fun b => S.adel str_eqb b eio) ;;;
+        (S.set_binpkt (fun b => adel str_eqb b eio) ;;;
          (if type_is (rp r') BINARY_EVENT
           then S.handle_event c eio (pns (rp r')) (pid (rp r')) (pdata (rp r'))
           else S.handle_ack c eio (pns (rp r')) (pid (rp r')) (pdata (rp r')))) s
   end.
 Proof.
-  intro Hub. unfold server_rx_step, rx_step_with, S.handle_eio_message. unfold bindM at 1. unfold getS at 1.
-  destruct (S.aget str_eqb (S.binpkt s) eio) as [r|] eqn:Eb.
+  intro Hub. unfold server_rx_step, rx_step_with, S.handle_eio_message. rewrite !bind_getS.
+  destruct (aget str_eqb (S.binpkt s) eio) as [r|] eqn:Eb.
   - destruct (add_attachment r payload) as [[r' [|]]|e]; cbn [bind]; intro H; try discriminate.
     exists r'. split; [reflexivity|].
     destruct (if type_is (rp r') BINARY_EVENT then server_dispatch_event (rp r') else server_dispatch_ack (rp r'))
-      as [evs'|e] eqn:D; [|discriminate]. cbn [bind] in H. inversion H; subst. split; [reflexivity|].
-    destruct ((S.set_binpkt (fun b => S.adel str_eqb b eio);;;
-               (if type_is (rp r') BINARY_EVENT
-                then S.handle_event c eio (pns (rp r')) (pid (rp r')) (pdata (rp r'))
-                else S.handle_ack c eio (pns (rp r')) (pid (rp r')) (pdata (rp r')))) s) as [[s2 e2] r2].
-    reflexivity.
-  - cbn [rx_decode]. rewrite Hub. unfold bindM at 1. unfold lift at 1.
-    destruct (decode loads payload) as [r|e]; cbn [bind]; [|discriminate].
+      as [evs'|e] eqn:D; [|discriminate]. cbn [bind] in H. inversion H; subst. split; reflexivity.
+  - cbn [rx_decode]. unfold S.decode_any. rewrite Hub. destruct (decode loads payload) as [r|e]; cbn [bind]; [|discriminate].
+    rewrite !bind_lift_ok. cbv zeta.
     intro H. exists r. split; [reflexivity|].
     destruct (type_is (rp r) EVENT) eqn:T2.
     + destruct (type_is_event_excl (rp r) (or_introl T2)) as [T0 T1]. rewrite T0, T1.
       left. split; [reflexivity|].
       destruct (server_dispatch_event (rp r)) as [evs'|e]; [|discriminate]. cbn [bind] in H. inversion H; subst.
-      split; [reflexivity|].
-      destruct (S.handle_event c eio (pns (rp r)) (pid (rp r)) (pdata (rp r)) s) as [[s2 e2] r2]. reflexivity.
+      split; reflexivity.
     + destruct (type_is (rp r) ACK) eqn:T3.
       * destruct (type_is_event_excl (rp r) (or_intror (or_introl T3))) as [T0 T1]. rewrite T0, T1.
         right. split; [reflexivity|]. split; [reflexivity|].
         destruct (server_dispatch_ack (rp r)) as [evs'|e]; [|discriminate]. cbn [bind] in H. inversion H; subst.
-        split; [reflexivity|].
-        destruct (S.handle_ack c eio (pns (rp r)) (pid (rp r)) (pdata (rp r)) s) as [[s2 e2] r2]. reflexivity.
+        split; reflexivity.
       * destruct (type_is (rp r) BINARY_EVENT || type_is (rp r) BINARY_ACK); discriminate.
+Qed.
+
+(* what the server's _handle_event does with the dispatched packet, for a connected client:
+   sid, data[1:] to the handler; `pack v` in the ACK when an id was sent *)
+Theorem server_model_handle_event c eio p ns ev args id sid (s : S.srv) :
+  server_dispatch_event p = Ok [EvCall ns ev args id] ->
+  sid_from_eio (S.mg s) eio ns = Some sid ->
+  is_connected (S.mg s) (Some sid) ns = true ->
+  S.handle_event c eio (pns p) (pid p) (pdata p) s =
+  (r <~ S.trigger_event c ev ns (PStr sid :: args) ;;
+   match r, id with
+   | Some v, Some i => S.send_packet c (Some eio) ACK (PList (pack v)) ns (Some i)
+   | _, _ => ret tt
+   end) s.
+Proof.
+  unfold server_dispatch_event, S.handle_event. intros H Hsid Hconn.
+  destruct (split_event (pdata p)) as [[e a]|x] eqn:Es; [|discriminate]. cbn [bind fst snd] in H.
+  inversion H; subst. cbv zeta. rewrite bind_getS, Hsid, bind_lift_ok, Hconn. reflexivity.
 Qed.
